@@ -281,14 +281,35 @@ def cases(max_ops):
     return st.sampled_from([1, 3, 5, 7, 9, 11, 13, 15, 17, 17, 17, 19, 19]).flatmap(for_N)
 
 
-def estimator(live, N, bump=0):
-    """the four orders (weighted L2, outer, time seminorm, space seminorm) are independent; each is at least N, so every
-    exactness / accuracy claim made for N still holds"""
-    from src.error_estimator import ErrorEstimator
+def orders_for(N, bump):
+    """(weighted L2, outer, time seminorm, space seminorm): independent orders; with bump == 0 the scalar form N"""
+    if not bump:
+        return (N, N, N, N)
     ups = [(bump >> (2 * k)) & 3 for k in range(4)]
-    orders = tuple(min(19, N + 2 * u) for u in ups)
+    if bump % 5 == 0:
+        # one of the two seminorm orders much lower than the other (the exactness of each indicator depends on its own)
+        lo = [3, 1, 5][bump % 3]
+        return (N, N, lo, N) if bump % 2 else (N, N, N, lo)
+    return tuple(min(19, N + 2 * u) for u in ups)
+
+
+def estimator(live, N, bump=0):
+    from src.error_estimator import ErrorEstimator
     with repo.quiet():
-        return ErrorEstimator(live.mesh, N_poly=orders if bump else N)
+        return ErrorEstimator(live.mesh, N_poly=orders_for(N, bump) if bump else N)
+
+
+def clip_residual(spec, orders):
+    """polynomial residual restricted to the degrees for which all four orders are exact:
+    deg_t <= (N_time - 1)/2, deg_x <= (N_space - 1)/2, and 2 deg <= outer and weighted-L2 orders"""
+    if spec['type'] != 'poly':
+        return spec
+    a_, b_, c_, d_ = orders
+    deg_t = min((c_ - 1) // 2, b_ // 2, a_ // 2)
+    deg_x = min((d_ - 1) // 2, b_ // 2, a_ // 2)
+    cc = spec['c'][:deg_t + 1]
+    aa = [row[:max(0, deg_x - 2 + 1)] for row in spec['a'][:deg_t + 1]] if deg_x >= 2 else []
+    return {'type': 'poly', 'c': cc, 'a': aa}
 
 
 def body(case, rec, cap):
@@ -313,7 +334,9 @@ def body(case, rec, cap):
     cj = dict(case)
     B = lambda c: 'C09/%s/%s' % (kind, c)
     try:
-        EE = estimator(live, N, case['rot'] * 37 % 256 if case['ei'] % 2 else 0)
+        bump = (case['rot'] * 37 + (case['ei'] // 2) * 11) % 256 if case['ei'] % 2 else 0
+        EE = estimator(live, N, bump)
+        case = dict(case, res=clip_residual(case['res'], orders_for(N, bump)), res2=clip_residual(case['res2'], orders_for(N, bump)))
         ref = Ref(live, g, case['res'])
         residual = ref.res
         if kind == 'value':
@@ -364,7 +387,7 @@ def body(case, rec, cap):
                 # a polynomial in x_hat has a kink at x_hat = 0 ~ L, i.e. inside a smooth arc patch: not a smooth residual
                 rec.exclude('polynomial_in_x_hat_is_kinked_inside_a_seam_arc_patch')
                 return
-            if numeric and N < 17:
+            if numeric and min(orders_for(N, bump)[1:]) < 17:
                 rec.exclude('numeric_patch_below_order_17')
                 return
             with repo.quiet():
@@ -423,6 +446,30 @@ def body(case, rec, cap):
                     l2s = np.asarray(EE.estimate_weighted_l2(elems, residual, use_mp=False), dtype=float)
                     l2p = np.asarray(EE.estimate_weighted_l2(elems, residual, use_mp=True), dtype=float)
                 direct = np.array([[float(EE.sobolev_time(e, residual)[0]), float(EE.sobolev_space(e, residual)[0])] for e in elems])
+            if case['workers'] % 2 == 0:
+                # two estimators with different order tuples (whose digits concatenate alike) share a cache directory:
+                # the second must not be served the first one's numbers
+                import os, shutil
+                from src.error_estimator import ErrorEstimator
+                cdir = os.path.join(os.environ.get('VERIF_WORK') or '/verif/.work', 'c09cache.%d' % os.getpid())
+                shutil.rmtree(cdir, ignore_errors=True)
+                os.makedirs(cdir, exist_ok=True)
+                try:
+                    cj2 = clip_residual(case['res'], (5, 1, 5, 5))
+                    r2 = Ref(live, g, cj2).res
+                    with repo.quiet():
+                        E1 = ErrorEstimator(live.mesh, N_poly=(5, 1, 15, 5), cache_dir=cdir)
+                        E2 = ErrorEstimator(live.mesh, N_poly=(5, 11, 5, 5), cache_dir=cdir)
+                        E3 = ErrorEstimator(live.mesh, N_poly=(5, 11, 5, 5))
+                        E1.estimate_sobolev(elems, r2, use_mp=False)
+                        got = np.asarray(E2.estimate_sobolev(elems, r2, use_mp=False), dtype=float)
+                        want = np.asarray(E3.estimate_sobolev(elems, r2, use_mp=False), dtype=float)
+                    if not np.array_equal(got, want):
+                        rec.violation(B('cache_shared_between_order_tuples'), {'max_abs_diff': float(np.max(np.abs(got - want)))}, cj)
+                        return
+                    rec.cls('paths_cache_two_tuples')
+                finally:
+                    shutil.rmtree(cdir, ignore_errors=True)
             rec.cls('paths_workers_%d' % min(case['workers'], 4))
             rec.nontriv(['paths', case['spec'], case['ops'], case['res'], case['res2'], N, case['workers']])
             if not np.array_equal(ser1, par1) or not np.array_equal(ser2, par2):
@@ -472,7 +519,7 @@ def body(case, rec, cap):
                 # rotate the point back by the angle and evaluate the original residual there
                 Xo, Yo = ca * X + sa * Y + cx, -sa * X + ca * Y + cy
                 return ref.rfun(t, xh, Xo, Yo)
-            EE2 = estimator(img, N, case['rot'] * 37 % 256 if case['ei'] % 2 else 0)
+            EE2 = estimator(img, N, bump)
             with repo.quiet():
                 v1 = np.asarray(EE.estimate_sobolev(elems, residual, use_mp=False), dtype=float)
                 ie = img.leaves()
